@@ -203,7 +203,12 @@ pub fn run_check(prop: &str, tier: Tier, caps: Caps) -> i32 {
         }
     };
     let mut reports: Vec<FamilyReport> = Vec::new();
+    // development aid (never set by the registered commands): explore only the families whose name contains this
+    let only = std::env::var("MCX_ONLY_FAMILY").ok();
     for cfg in families::families(prop, tier) {
+        if only.as_ref().is_some_and(|o| !cfg.family.contains(o.as_str())) {
+            continue;
+        }
         match explore_family(prop, tier, &cfg, &caps) {
             Ok(r) => {
                 println!(
